@@ -196,6 +196,18 @@ var directedScenarios = []directed{
 		return sc1([]*lib.BlockSpec{D().Spec("0.13.2"), declareV0(declareV0(D().Spec("0.13.2"), 0xd007, true), 0xd007, false)}, 1,
 			declareV0(D().Spec("0.13.2"), 0xd007, true))
 	}},
+	{"noop-replace-and-noop-nonce", func(ns bool) *Scenario { // a class replaced by the class it has, a nonce set to the value it has
+		return sc1(specs("0.14.0", D().Deploy(0x104, 0xc000).Deploy(0x105, 0xc001).Nonce(0x104, 1), D().Replace(0x104, 0xc000).Replace(0x105, 0xc002).Nonce(0x104, 1).Nonce(0x105, 0),
+			D().Replace(0x104, 0xc000).Replace(0x105, 0xc002)), 2, D().Replace(0x104, 0xc001).Replace(0x105, 0xc003).Spec("0.14.0"))
+	}},
+	{"migration-reverted-and-migrated-again", func(ns bool) *Scenario { // the second time is legitimate once the first is reverted
+		h, _, _, c2 := mySierra(11)
+		m1, m2 := D().Spec("0.14.1"), D().Deploy(0x104, 0xc000).Spec("0.14.1")
+		m1.Diff.MigratedClasses[felt.SierraClassHash(h)] = felt.CasmClassHash(c2)
+		m2.Diff.MigratedClasses[felt.SierraClassHash(h)] = felt.CasmClassHash(c2)
+		return &Scenario{Main: []*lib.BlockSpec{declareSierra(D().Spec("0.13.4"), 11, false), D().Spec("0.14.1"), m1},
+			Rounds: []Round{{Revert: 1, Fork: []*lib.BlockSpec{D().Spec("0.14.1"), m2}}, {Revert: 1, Fork: []*lib.BlockSpec{D().Spec("0.14.1")}}}, Restart: true}
+	}},
 	{"l1-handler-reverted-and-resent", func(ns bool) *Scenario {
 		tx, rc := l1Tx(7)
 		a := D().Deploy(0x104, 0xc000).Spec("0.14.0")
@@ -463,7 +475,8 @@ func buildCase(cs caseSpec, thorough bool) *Scenario {
 				sc = d.mk(cs.NewState)
 				sc.Restart = cs.Case%3 == 0 // restarted copies compared in the variant without in-place restarts
 				sc.FailedOps = cs.Case%3 == 1
-				sc.RestartMode = cs.Case % 3 // variant: no restart / killed / graceful before the first revert
+				sc.RestartMode = cs.Case % 3  // variant: no restart / killed / graceful before the first revert
+				sc.FinaliseA = cs.Case%3 == 2 // and A produces every second block itself in the third variant
 			}
 		}
 	case "outside":
